@@ -161,6 +161,13 @@ def cases(tier, seed):
                         if grid[0] == grid[1] or True:
                             for pb in ("dense", "one0", "sparse"):
                                 out.append(dict(grids=(grid,), k=k, pats=(pa, pb), herm=herm, ro=ro, kind="AdBA"))
+    # custom element multiplication (element-wise product of equal blocks; scalar blocks with operator.mul)
+    for nf in (2, 3, 4):
+        for opname in ("np.multiply", "mul-scalars"):
+            for pats in itertools.product(("dense", "zero0", "sparse"), repeat=nf):
+                if nf == 4 and len(set(pats)) > 2:
+                    continue
+                out.append(dict(grids=((2, 2),) * nf, k=1, pats=pats, herm=False, ro="asc", kind="custom-op", op=opname))
     for c in out:
         c["grids"] = [list(g) for g in c["grids"]]
         c["pats"] = list(c["pats"])
@@ -181,7 +188,74 @@ def herm_B_value(index, pattern, k):
     return v
 
 
+def run_custom_op(case):
+    """cauchy_dot_product with a user-supplied element multiplication."""
+    import operator as _operator
+
+    from pymablock.series import BlockSeries, cauchy_dot_product, zero
+
+    k = 1
+    nf = len(case["pats"])
+    scalars = case["op"] == "mul-scalars"
+    op = _operator.mul if scalars else np.multiply
+
+    def val(tag, pattern, index):
+        i, j, n = index
+        if n > 2 or (pattern == "zero0" and n == 0) or (pattern == "sparse" and (i + j + n) % 2 == 1):
+            return None
+        rng = np.random.default_rng([tag, i, j, n, 57])
+        if scalars:
+            return complex(int(rng.integers(1, 4)), int(rng.integers(-2, 3)))
+        return (rng.integers(1, 4, (2, 2)) + 1j * rng.integers(-2, 3, (2, 2))).astype(complex)
+
+    facs = []
+    for t, p in enumerate(case["pats"]):
+        def ev(*index, t=t, p=p):
+            v = val(t + 1, p, tuple(int(x) for x in index))
+            return zero if v is None else v
+
+        facs.append(BlockSeries(eval=ev, shape=(2, 2), n_infinite=1, name=f"F{t}"))
+    P = cauchy_dot_product(*facs, operator=op)
+    V = []
+    compared = 0
+    nontrivial = False
+    for n in range(4):
+        for i in range(2):
+            for j in range(2):
+                want = None
+                nterms = 0
+                for mids in itertools.product(range(2), repeat=nf - 1):
+                    chain = (i,) + mids + (j,)
+                    for sp in splits((n,), nf):
+                        vals = [val(t + 1, case["pats"][t], (chain[t], chain[t + 1], sp[t][0])) for t in range(nf)]
+                        if any(v is None for v in vals):
+                            continue
+                        term = vals[0]
+                        for v in vals[1:]:
+                            term = op(term, v)
+                        want = term if want is None else want + term
+                        nterms += 1
+                try:
+                    got = P[i, j, n]
+                except Exception as e:  # noqa: BLE001
+                    V.append(f"element {[i, j, n]} raises {type(e).__name__}: {str(e)[:80]}")
+                    continue
+                compared += 1
+                if want is None:
+                    if got is not zero and np.abs(np.asarray(got)).max() > 1e-12:
+                        V.append(f"element {[i, j, n]} should be absent")
+                elif got is zero or not np.allclose(np.asarray(got), want, atol=1e-9):
+                    V.append(f"element {[i, j, n]} differs from the explicit sum with the user-supplied multiplication")
+                if nterms >= 2:
+                    nontrivial = True
+    desc = f"[custom-op {case['op']} factors={nf} pats={case['pats']}]"
+    return dict(violations=[dict(what=f"{w} {desc}", key=None) for w in V[:3]], nontrivial=nontrivial,
+                outcome="ok" if not V else "violation", stats=dict(elements_compared=compared), sample=case)
+
+
 def run_case(case):
+    if case["kind"] == "custom-op":
+        return run_custom_op(case)
     from pymablock.series import BlockSeries, cauchy_dot_product, one, zero
 
     k = case["k"]
